@@ -414,39 +414,50 @@ structure InvU (s : St) : Prop where
   outA : ∀ k, s.out k ≠ none → k ∈ s.applied
   outR : ∀ u k, (s.pc u).running = some k → s.out k = none
   runA : ∀ u k, (s.pc u).running = some k → k ∈ s.applied
+  outD : ∀ k, k ∈ s.applied → s.out k = none → ∃ d, (s.pc d).running = some k
 
 theorem invU_init (spur : Bool) : InvU (init spur) := by
   constructor <;> simp [init, Pc.running]
 
 theorem invU_congr {s s' : St} (h : InvU s) (hpc : s'.pc = s.pc) (ha : s'.applied = s.applied) (ho : s'.out = s.out) :
     InvU s' := by
-  obtain ⟨h1, h2, h3⟩ := h
-  refine ⟨?_, ?_, ?_⟩
+  obtain ⟨h1, h2, h3, h4⟩ := h
+  refine ⟨?_, ?_, ?_, ?_⟩
   · rw [ho, ha]; exact h1
   · rw [ho, hpc]; exact h2
   · rw [ha, hpc]; exact h3
+  · rw [ho, ha, hpc]; exact h4
 
 theorem invU_move {s s' : St} {t : Tid} {p' : Pc} (h : InvU s) (hpc : s'.pc = upd s.pc t p')
     (hrun : ∀ k, p'.running = some k → (s.pc t).running = some k)
+    (hrun2 : ∀ k, (s.pc t).running = some k → p'.running = some k)
     (ha : s'.applied = s.applied) (ho : s'.out = s.out) : InvU s' := by
-  obtain ⟨h1, h2, h3⟩ := h
+  obtain ⟨h1, h2, h3, h4⟩ := h
   have hold : ∀ u k, (s'.pc u).running = some k → (s.pc u).running = some k := by
     intro u k hk
     rw [hpc] at hk
     by_cases hu : u = t
     · subst hu; simp only [upd_same] at hk; exact hrun k hk
     · simpa [hu] using hk
-  refine ⟨?_, ?_, ?_⟩
+  refine ⟨?_, ?_, ?_, ?_⟩
   · rw [ho, ha]; exact h1
   · intro u k hk; rw [ho]; exact h2 u k (hold u k hk)
   · intro u k hk; rw [ha]; exact h3 u k (hold u k hk)
+  · intro k hk hok
+    rw [ha] at hk; rw [ho] at hok
+    obtain ⟨d, hd⟩ := h4 k hk hok
+    refine ⟨d, ?_⟩
+    rw [hpc]
+    by_cases hdt : d = t
+    · subst hdt; simp [hrun2 k hd]
+    · simp [hdt, hd]
 
 /-- a function is entered: its task is appended to `applied` -/
 theorem invU_begin {s s' : St} {t : Tid} {p' : Pc} {j : TaskId} (h : InvU s) (hpc : s'.pc = upd s.pc t p')
-    (hj : p'.running = some j) (hnot : j ∉ s.applied)
+    (hj : p'.running = some j) (hnot : j ∉ s.applied) (hold0 : (s.pc t).running = none)
     (ha : s'.applied = s.applied ++ [j]) (ho : s'.out = s.out) : InvU s' := by
-  obtain ⟨h1, h2, h3⟩ := h
-  refine ⟨?_, ?_, ?_⟩
+  obtain ⟨h1, h2, h3, h4⟩ := h
+  refine ⟨?_, ?_, ?_, ?_⟩
   · intro k hk; rw [ho] at hk; rw [ha]; exact List.mem_append_left _ (h1 k hk)
   · intro u k hk
     rw [ho]; rw [hpc] at hk
@@ -461,16 +472,27 @@ theorem invU_begin {s s' : St} {t : Tid} {p' : Pc} {j : TaskId} (h : InvU s) (hp
     by_cases hu : u = t
     · subst hu; simp only [upd_same] at hk; rw [hj] at hk; injection hk with hk; subst hk; simp
     · simp only [upd_other _ _ _ _ hu] at hk; exact List.mem_append_left _ (h3 u k hk)
+  · intro k hk hok
+    rw [ha] at hk; rw [ho] at hok
+    simp only [List.mem_append, List.mem_singleton] at hk
+    rcases hk with hk | hk
+    · obtain ⟨d, hd⟩ := h4 k hk hok
+      refine ⟨d, ?_⟩
+      rw [hpc]
+      by_cases hdt : d = t
+      · subst hdt; rw [hold0] at hd; cases hd
+      · simp [hdt, hd]
+    · subst hk; exact ⟨t, by rw [hpc]; simp [hj]⟩
 
 /-- a function ends: its outcome is recorded -/
 theorem invU_end {s s' : St} {t : Tid} {p' : Pc} {j : TaskId} {o : Outcome} (hL : InvL s) (h : InvU s)
     (hpc : s'.pc = upd s.pc t p') (hold : (s.pc t).running = some j) (hnew : p'.running = none)
     (ha : s'.applied = s.applied) (ho : s'.out = upd s.out j (some o)) : InvU s' := by
-  obtain ⟨h1, h2, h3⟩ := h
+  obtain ⟨h1, h2, h3, h4⟩ := h
   have others : ∀ u k, u ≠ t → (s.pc u).running = some k → False := by
     intro u k hu hk
     exact hu (hL.holder_eq (Pc.running_holdsX hold) (Pc.running_holdsX hk))
-  refine ⟨?_, ?_, ?_⟩
+  refine ⟨?_, ?_, ?_, ?_⟩
   · intro k hk
     rw [ha]; rw [ho] at hk
     by_cases hkj : k = j
@@ -486,6 +508,15 @@ theorem invU_end {s s' : St} {t : Tid} {p' : Pc} {j : TaskId} {o : Outcome} (hL 
     by_cases hu : u = t
     · subst hu; simp only [upd_same] at hk; rw [hnew] at hk; cases hk
     · simp only [upd_other _ _ _ _ hu] at hk; exact (others u k hu hk).elim
+  · intro k hk hok
+    rw [ha] at hk; rw [ho] at hok
+    by_cases hkj : k = j
+    · subst hkj; simp [upd] at hok
+    · simp only [upd, hkj, if_false] at hok
+      obtain ⟨d, hd⟩ := h4 k hk hok
+      by_cases hdt : d = t
+      · subst hdt; rw [hold] at hd; injection hd with hd; exact absurd hd.symm hkj
+      · exact (others d k hdt hd).elim
 
 theorem invU_step {s s' : St} {t : Tid} (hL : InvL s) (hC : InvC s) (h : InvU s) (hs : Step s t s') : InvU s' := by
   have none_run : ∀ {p' : Pc}, p'.running = none → ∀ k, p'.running = some k → (s.pc t).running = some k := by
@@ -495,45 +526,45 @@ theorem invU_step {s s' : St} {t : Tid} (hL : InvL s) (hC : InvC s) (h : InvU s)
   | wr v hr => exact invU_congr h rfl rfl rfl
   | move p p' hp hc =>
     subst hp
-    exact invU_move h rfl (by intro k hk; rw [hc.running] at hk; exact hk) rfl rfl
-  | skipDrain c hp hf => exact invU_move h rfl (none_run (by simp [Pc.running])) rfl rfl
-  | call k a hp hsub => exact invU_move h rfl (none_run (by simp [Pc.running])) rfl rfl
+    exact invU_move h rfl (by intro k hk; rw [hc.running] at hk; exact hk) (by intro k hk; rw [hc.running]; exact hk) rfl rfl
+  | skipDrain c hp hf => exact invU_move h rfl (none_run (by simp [Pc.running])) (by intro k hk; simp_all [Pc.running]) rfl rfl
+  | call k a hp hsub => exact invU_move h rfl (none_run (by simp [Pc.running])) (by intro k hk; simp_all [Pc.running]) rfl rfl
   | lockX p p' hp hpp hm hs =>
     subst hp
     rcases hpp with ⟨k, a, h1, h2⟩ | ⟨c, h1, h2⟩ <;> subst h2 <;>
-      exact invU_move h rfl (none_run (by simp [Pc.running])) rfl rfl
-  | unlockXm k a thr hp hm => exact invU_move h rfl (none_run (by simp [Pc.running])) rfl rfl
-  | unlockXs c hp hb hm => exact invU_move h rfl (none_run (by simp [Pc.running])) rfl rfl
+      exact invU_move h rfl (none_run (by simp [Pc.running])) (by intro k hk; simp_all [Pc.running]) rfl rfl
+  | unlockXm k a thr hp hm => exact invU_move h rfl (none_run (by simp [Pc.running])) (by intro k hk; simp_all [Pc.running]) rfl rfl
+  | unlockXs c hp hb hm => exact invU_move h rfl (none_run (by simp [Pc.running])) (by intro k hk; simp_all [Pc.running]) rfl rfl
   | lockS c p' hp hp' hm =>
-    rcases hp' with h2 | h2 <;> subst h2 <;> exact invU_move h rfl (none_run (by simp [Pc.running])) rfl rfl
+    rcases hp' with h2 | h2 <;> subst h2 <;> exact invU_move h rfl (none_run (by simp [Pc.running])) (by intro k hk; simp_all [Pc.running]) rfl rfl
   | unlockS p p' hp hpp hin =>
     subst hp
     rcases hpp with ⟨h1, h2⟩ | ⟨thr, h1, h2⟩ <;> subst h2 <;>
-      exact invU_move h rfl (none_run (by simp [Pc.running])) rfl rfl
+      exact invU_move h rfl (none_run (by simp [Pc.running])) (by intro k hk; simp_all [Pc.running]) rfl rfl
   | lockQ p p' hp hpp hq =>
     subst hp
     rcases hpp with ⟨k, a, h1, h2⟩ | ⟨c, h1, h2⟩ <;> subst h2 <;>
-      exact invU_move h rfl (none_run (by simp [Pc.running])) rfl rfl
-  | push k a hp hq => exact invU_move h rfl (none_run (by simp [Pc.running])) rfl rfl
-  | raise k a hp => exact invU_move h rfl (none_run (by simp [Pc.running])) rfl rfl
-  | clear c hp => exact invU_move h rfl (none_run (by simp [Pc.running])) rfl rfl
-  | swap c hp hq hb => exact invU_move h rfl (none_run (by simp [Pc.running])) rfl rfl
+      exact invU_move h rfl (none_run (by simp [Pc.running])) (by intro k hk; simp_all [Pc.running]) rfl rfl
+  | push k a hp hq => exact invU_move h rfl (none_run (by simp [Pc.running])) (by intro k hk; simp_all [Pc.running]) rfl rfl
+  | raise k a hp => exact invU_move h rfl (none_run (by simp [Pc.running])) (by intro k hk; simp_all [Pc.running]) rfl rfl
+  | clear c hp => exact invU_move h rfl (none_run (by simp [Pc.running])) (by intro k hk; simp_all [Pc.running]) rfl rfl
+  | swap c hp hq hb => exact invU_move h rfl (none_run (by simp [Pc.running])) (by intro k hk; simp_all [Pc.running]) rfl rfl
   | applyHead c j rest hp hb =>
-    refine invU_begin (j := j) h rfl (by simp [Pc.running]) ?_ rfl rfl
+    refine invU_begin (j := j) h rfl (by simp [Pc.running]) ?_ (by simp [hp, Pc.running]) rfl rfl
     have hnd := hC.nodup
     rw [hb] at hnd
     intro hin
     have := (List.nodup_append.1 ((List.nodup_append.1 hnd).1)).2.2 j hin j (by simp)
     exact this rfl
   | applyOwn k a hp hb =>
-    refine invU_begin (j := k) h rfl (by simp [Pc.running]) ?_ rfl rfl
+    refine invU_begin (j := k) h rfl (by simp [Pc.running]) ?_ (by simp [hp, Pc.running]) rfl rfl
     intro hin
     exact hC.pre t k (by simp [hp, Pc.prePub, Ctx.task]) (Or.inl hin)
   | endHead c j o hp =>
     exact invU_end hL h rfl (by simp [hp, Pc.running]) (by simp [Pc.running]) rfl rfl
   | endOwn k a thr o hp =>
     exact invU_end hL h rfl (by simp [hp, Pc.running]) (by simp [Pc.running]) rfl rfl
-  | done k a thr hp => exact invU_move h rfl (none_run (by simp [Pc.running])) rfl rfl
+  | done k a thr hp => exact invU_move h rfl (none_run (by simp [Pc.running])) (by intro k hk; simp_all [Pc.running]) rfl rfl
 
 /-! ## the invariant -/
 
